@@ -45,7 +45,7 @@ def ob_handler_tail(report, prop):
                 e = rm[0]
                 if e.name != 'remove_with_stable_id':
                     return bad(f'handler exit removes by peer id only ({e.name}): the exit of a replaced connection would evict its replacement', 'tail-remove-by-peer', r)
-                a = [str(x) if isinstance(x, z3.ExprRef) else vrepr(x) for x in e.args]
+                a = [str(x) if isinstance(x, z3.ExprRef) else vrepr(x) for x in map(e2.peel, e.args)]
                 if a[0] != f'pid({own})' or a[1] != f'sid({own})':
                     return bad(f'handler exit removes ({a[0]}, {a[1]}), not (peer id, stable id) of its own connection', 'tail-remove-args', r)
                 # reason: a DisconnectReason computed from the error that ended the loop
@@ -72,6 +72,8 @@ def ob_add_peer(report, prop):
             own = ex.deref(p, call.args[1])
             p.events.append(Event('add', 'ActivePeers::add', (own, call.args[2])))
             q = p.clone()
+            p.events.append(Event('add-result', 'registered', ()))
+            q.events.append(Event('add-result', 'refused', ()))
             k(p, MD_some(call.args[2]))
             k(q, MD_none())
 
@@ -107,6 +109,10 @@ def ob_add_peer(report, prop):
             hs = [e for e in r.events if e.kind == 'handler']
             sp = [e for e in r.events if e.kind == 'call' and e.name.endswith('JoinSet::spawn')]
             kept = any('discr == 1' in str(z3.simplify(c)) for c in r.pc) or len(hs) > 0
+            registered = any(e.kind == 'add-result' and e.name == 'registered' for e in r.events)
+            if registered and not (len(hs) == 1 and len(sp) == 1):
+                return bad('a connection that add() registered (it is listed and was announced) gets no request handler: nothing will ever remove it from the active set when it ends',
+                           'add-peer-registered-without-handler', r)
             if hs:
                 seen.add('kept')
                 if len(hs) != 1 or len(sp) != 1 or vname(hs[0].args[1]) != 'newconn':
